@@ -31,6 +31,8 @@ RULES = {
     "HISTO": "the histogram b[] of integer parts and a_upper (which bound the draw loop) follow every register move: old level "
              "decremented and new level incremented together, old level read before it is overwritten, a_upper lowered only while its "
              "level is empty",
+    "SKIP": "a sketch method cannot be left by return / ? / continue before its last register write: every streamed item is offered",
+    "REINIT": "reinit re-establishes every live mutated field with the constructor's value for the five sketchers (RESET analysis of C13)",
     "MARKER": "SuperMinHash's inline shuffle re-initialises p[x] exactly when q[x] != current item rank, and marks it",
 }
 
@@ -408,6 +410,26 @@ def _resetbefore(ctx, facts, fid):
                           "permut_generator.next() is reachable without a preceding reset() for the same item: slot order leaks between items")
 
 
+def skip_rule(ctx, facts, fid):
+    """SKIP: a sketch method processes every item: no `return`, `?` or `continue` can leave it before its last register write
+    (the tabled early exits of the draw loops are breaks and are classified by EXIT)"""
+    fn = facts.fn(fid)
+    t = tree_of(fn)
+    ws = [w for (w, f, i) in writes_to_self(fn)]
+    if not ws:
+        return
+    last = max(w["sp"][1] for w in ws)
+    bad = [n for n in user_nodes(fn) if not hirq.from_expansion(n) and n["sp"][1] < last and
+           (n["k"] in ("Ret", "Continue") or (n["k"] == "Match" and str(n.get("src", "")).startswith("TryDesugar")))]
+    bad = [n for n in bad if not (n["k"] == "Continue" and False)]
+    if bad:
+        for n in bad[:2]:
+            ctx.violation("SKIP", fid, "item skipped", hirq.loc(n), "`%s` can leave %s before the item has been offered to the registers (conditions: %s)"
+                          % (n["k"].lower() if n["k"] != "Match" else "?", short(fid), nf.all_conditions(t, n)[:2]))
+    else:
+        ctx.ok("SKIP", fid, "no return / ? / continue before the last register write", hirq.loc(fn))
+
+
 def deleg_slice(ctx, facts, fid, finisher=None, rule="DELEG"):
     """sketch_slice = optional emptiness rejection, then one unconditional self.sketch(elem) per element,
     then (densified) the tabled finisher; no other effect on self"""
@@ -490,6 +512,11 @@ def run(ctx, facts):
     _histo(ctx, facts, SMH + "sketch", "smh")
     if has2:
         _histo(ctx, facts, SMH2 + "sketch", "smh2")
+    for fid in [SMH + "sketch", SS + "sketch", OD + "sketch", RD + "sketch"] + ([SMH2 + "sketch"] if has2 else []):
+        skip_rule(ctx, facts, fid)
+    # reuse after reinit is part of "any chunking of the stream over several calls" in practice: reset == new for the five sketchers
+    from . import C13 as _C13
+    _C13.require_verified_reset(ctx, facts, [x for x in (_C13.SMH, _C13.SMH2, _C13.SS, _C13.OD, _C13.RD)], "REINIT")
     _counter(ctx, facts)
     from . import C13
     C13.require_verified_reset(ctx, facts, [C13.FY], "RESETBEFORE")
